@@ -383,6 +383,30 @@ fn core_grid(thorough: bool) -> Vec<Case> {
                 }
             }
         }
+        // Raptor / RaptorQ scheme-specific parameters: symbol alignment Al and number of sub-blocks N
+        // (16 bits for RaptorQ, 8 for Raptor), signalled in-band and through the FDT attribute
+        if scheme == Scheme::RaptorQ || scheme == Scheme::Raptor {
+            let b: u16 = if scheme == Scheme::Raptor { 4 } else { 2 };
+            for (e, al, n) in [(8u16, 1u8, 2u16), (8, 4, 2), (64, 8, 8), (1400, 4, 255), (1400, 4, 256), (1400, 4, 257), (1400, 4, 300), (1400, 4, 350)] {
+                if scheme == Scheme::Raptor && n > 255 {
+                    continue;
+                }
+                for len in [e as usize * b as usize - 1, e as usize * b as usize, 2 * e as usize * b as usize + 3] {
+                    for inband_fti in [true, false] {
+                        for md5 in [true, false] {
+                            let mut oti = OtiSpec::new(scheme, e, b, 1, inband_fti);
+                            oti.al = al;
+                            oti.n = n;
+                            let mut o = ObjSpec::simple(len, 9);
+                            o.oti = Some(oti);
+                            o.md5 = md5;
+                            let s = SessSpec::basic(OtiSpec::new(Scheme::NoCode, 1424, 64, 0, true));
+                            v.push(Case { sess: s, objs: vec![o], receive_once: true, fs: false });
+                        }
+                    }
+                }
+            }
+        }
         // around the scheme's maximum transfer length, smallest (E, B)
         let (e, b) = if scheme == Scheme::Raptor { (1u16, 4u16) } else { (1u16, 1u16) };
         let oti = OtiSpec::new(scheme, e, b, if scheme == Scheme::NoCode { 0 } else { 1 }, true);
